@@ -5,6 +5,7 @@ pub mod c04;
 pub mod c06;
 pub mod c07;
 pub mod c08;
+pub mod c11;
 pub mod c14;
 pub mod c17;
 pub mod common;
@@ -25,6 +26,7 @@ pub fn run(prop: &str, tier: Tier, seed: u64) -> i32 {
         "C08" => c08::run("C08", tier, seed, &findings),
         "C09" => c08::run("C09", tier, seed, &findings),
         "C10" => c08::run("C10", tier, seed, &findings),
+        "C11" => c11::run(tier, seed, &findings),
         "C14" => c14::run(tier, seed, &findings),
         "C17" => c17::run("C17", tier, seed, &findings),
         "C18" => c17::run("C18", tier, seed, &findings),
@@ -58,6 +60,7 @@ pub fn replay(path: &str) -> i32 {
         "C08" => c08::replay("C08", &v, path, &findings),
         "C09" => c08::replay("C09", &v, path, &findings),
         "C10" => c08::replay("C10", &v, path, &findings),
+        "C11" => c11::replay(&v, path, &findings),
         "C14" => c14::replay(&v, path, &findings),
         "C17" => c17::replay("C17", &v, path, &findings),
         "C18" => c17::replay("C18", &v, path, &findings),
@@ -143,4 +146,29 @@ pub fn replay_generic<C: PropCheck>(check: &C, prop: &'static str, v: &serde_jso
         eprintln!("gev: replay passes (no failure reproduced)");
     }
     code
+}
+
+/// `gev emit`: compile a group given as JSON in the given insertion order and print every emitted artefact
+pub fn c20_emit(v: &serde_json::Value) -> i32 {
+    let pairs = |k: &str| -> Vec<(String, String)> {
+        v[k].as_array().map(|a| a.iter().filter_map(|x| Some((x[0].as_str()?.to_string(), x[1].as_str()?.to_string()))).collect()).unwrap_or_default()
+    };
+    let files = pairs("files");
+    let scripts = pairs("scripts");
+    let dev = v["dev"].as_bool().unwrap_or(false);
+    match crate::compile::compile_sources(&files, &scripts, dev) {
+        Ok((group, _)) => {
+            match group.get_tmpl_gen_object_groups() {
+                Ok(s) => println!("{}", s),
+                Err(e) => {
+                    println!("TmplError: {}", e.message);
+                }
+            }
+            0
+        }
+        Err(p) => {
+            println!("panic: {}", p);
+            0
+        }
+    }
 }
